@@ -72,4 +72,46 @@ CONTRACTS[(EPATH, 'greedy_decode_ctc')] = Contract(
     loops={0: LoopSpec(counter='kk', inv=['len(outputs) == kk'])},
 )
 
-KEYS = [(EPATH, 'greedy_decode_ctc')]
+# ---------------------------------------------------------------------------------------------------
+# the stand-alone greedy decoder (numpy): itertools.groupby merges the repeats, a filtered generator drops the blanks
+
+DPATH = 'pero_ocr/decoding/decoders.py'
+TEXTOF = z3.Function('GREEDY_text', z3.IntSort(), Val)
+
+
+def _greedy_join_hook(ex, st, name, base, args, kwargs):
+    """sep.join(<generator>): the generator's elements and their source frames become visible to the contract as JLEN / JSRC(j)"""
+    if name in ('join', 'call') and args and isinstance(args[0], ArrayVal) and getattr(args[0], 'src', None) is not None:
+        gen = args[0]
+        ex.spec_funcs['JSRC'] = SpecFunc(lambda j: gen.src(to_int(j)), 'JSRC')
+        st.ghost['JLEN'] = to_int(gen.shape[0])
+        st.env['JLEN'] = to_int(gen.shape[0])
+        ex.assumed.append('opaque: the decoded string is the join of the letters of the kept frames (JSRC(0..JLEN-1))')
+        return z3.Const('GREEDY_decoded', Val)
+    return NotImplemented
+
+
+_KEPT = '(argmaxes[%(t)s] != self._blank_ind and (%(t)s == 0 or argmaxes[%(t)s] != argmaxes[%(t)s - 1]))'
+CONTRACTS[(DPATH, 'GreedyDecoder.__call__')] = Contract(
+    params={'self': 'obj:GreedyDecoder', 'logits': 'nd2:real', 'max_unnormalization': 'real'},
+    fields={'_blank_ind': 'int', '_letters': 'val', 'symbol_separator': 'val'},
+    requires=['logits.shape[0] >= 0', 'logits.shape[1] >= 1'],
+    opaque=['logprobs_max_deviation', 'logsumexp'],
+    ghosts={'opaque_hook': _greedy_join_hook, 'opaque:logprobs_max_deviation': 'real', 'opaque_model:logprobs_max_deviation': lambda ex, st, a, k: z3.Real('MAXDEV_logits'),
+            'opaque_model:logsumexp': lambda ex, st, a, k: z3.Real('LSE_of_maxes'),
+            'lib:bag_of_hypotheses.BagOfHypotheses': lambda ex, st, *a, **k: ObjRef(z3.Int(fresh_name('bag')), 'Bag'),
+            'lib:bag_of_hypotheses.logsumexp': lambda ex, st, *a, **k: z3.Real('LSE_of_maxes'),
+            'method:add': lambda ex, st, obj, *a, **k: None},
+    theory=lambda ex, st: ({'MAXDEV': z3.Real('MAXDEV_logits')}, []),
+    raises={'ValueError': 'MAXDEV > max_unnormalization'}, ensures_exc={'ValueError': 'MAXDEV > max_unnormalization'},
+    ghost_at={'decoded = self.symbol_separator.join(': [
+        # the joined symbols are those of the frames that survive the CTC collapse of the arg-max path, in frame order:
+        # every joined element stems from a surviving frame, the frames are strictly increasing, and every surviving frame is joined
+        'assert forall(lambda j: implies(0 <= j and j < JLEN, 0 <= JSRC(j) and JSRC(j) < logits.shape[0] and ' + _KEPT % {'t': 'JSRC(j)'} + '))',
+        'assert forall(lambda j, j2: implies(0 <= j and j < j2 and j2 < JLEN, JSRC(j) < JSRC(j2)))',
+        'assert forall(lambda t: implies(0 <= t and t < logits.shape[0] and ' + _KEPT % {'t': 't'} + ', exists(lambda j: 0 <= j and j < JLEN and JSRC(j) == t)))',
+    ]},
+    ensures=['0 <= JLEN and JLEN <= logits.shape[0]'],
+)
+
+KEYS = [(EPATH, 'greedy_decode_ctc'), (DPATH, 'GreedyDecoder.__call__')]
